@@ -511,6 +511,7 @@ def check_aux_table(ck, prog, fn):
             # follow the straight-line chain from the arm's block to its assignment
             assigned = set()
             rhs_ok = False
+            last_rhs = None
             cur = tgt
             for _ in range(16):
                 blk = ctx.cfg.block(cur)
@@ -520,6 +521,7 @@ def check_aux_table(ck, prog, fn):
                             if pe["k"] == "field" and (pe.get("adt") or "").endswith("AuxValues"):
                                 assigned.add(pe["n"])
                                 e = ctx.prov.rvalue(s["rv"], (cur, i))
+                                last_rhs = e
                                 for x in walk_deep(e, ctx.prov):
                                     if x[0] == "call" and (x[1] or "").endswith("::add") and len(x[2]) == 2:
                                         idx = strip_casts(x[2][1])
@@ -529,6 +531,15 @@ def check_aux_table(ck, prog, fn):
                 if assigned or len(succ) != 1:
                     break
                 cur = succ[0].dst
+            if not rhs_ok and assigned:
+                # the pair through a moving pointer: key = *entry, value = *entry.add(1) - the value's address is one word past the key's
+                lin = Lin(ctx)
+                kd = strip_casts(ctx.prov.operand(t["discr"], (b["id"], len(b["stmts"]))))
+                kaddr = next((z[1] for z in walk_deep(kd, ctx.prov, limit=40) if z[0] == "deref"), None)
+                vaddr = next((z[1] for z in walk_deep(last_rhs, ctx.prov, limit=40) if z[0] == "deref"), None) if last_rhs is not None else None
+                if kaddr is not None and vaddr is not None:
+                    lk, lv = lin.of(kaddr), lin.of(vaddr)
+                    rhs_ok = lk is not None and lv is not None and lk[0] == lv[0] and lv[1] - lk[1] == 8
             n += 1
             ck.ob("C07.5", f"aux-arm|AT_{(name or str(v)).upper()}", name is not None and assigned == {"at_" + name}, fn=fn["path"],
                   detail=f"the arm for aux key {v} (AT_{(name or '?').upper()}) assigns {sorted(assigned)}; must assign at_{name}")
@@ -547,6 +558,13 @@ def check_aux_table(ck, prog, fn):
                 e = ctx.prov.rvalue(s["rv"], (b["id"], i))
                 if isinstance(e, tuple) and e[0] == "bin" and fold(e[3]) == 2:
                     step = True
+    if not step:
+        # pointer form: entry = entry.add(2) on a cursor of words
+        for bb, t2 in ctx.cfg.calls(lambda t2: (t2.get("callee") or "").endswith(("_ptr::<impl *const T>::add", "_ptr::<impl *mut T>::add"))):
+            a = ctx.args(bb)
+            a0 = strip_casts(a[0])
+            if len(a) == 2 and fold(a[1]) == 2 and isinstance(a0, tuple) and a0[0] == "var" and ctx.cfg.in_cycle(bb) and t2["dst"]["l"] in _feeds(fn, a0[1]) | {a0[1]}:
+                step = True
     ck.ob("C07.5", "aux-walk-steps-two-words", step, fn=fn["path"], detail="the aux vector walk must advance by 2 words per entry (key, value)")
 
 
